@@ -50,6 +50,12 @@ fn main() {
     if args[0] == "repeat" {
         std::process::exit(repeat_cmd(&args));
     }
+    if args[0] == "c07-worker" {
+        if args.len() < 6 {
+            usage();
+        }
+        std::process::exit(xsgv::props::c07::worker_main(&args));
+    }
     let prop = args[0].to_uppercase();
     let mut tier = match std::env::var("VERIF_TIER").ok().as_deref() {
         Some("thorough") => Tier::Thorough,
